@@ -683,7 +683,7 @@ class Sim:
             # `_active_nodes` was tested)
             self.ctl_lines.append("other")
             self.ctl_obs.append("RuntimeError")
-            self.sys_lines += self._sys_pre + ["ctl 0"]
+            self.sys_lines += self._sys_pre + ["ctl 0 0"]
             self.sys_obs += ["ok"] * len(self._sys_pre) + ["RuntimeError"]
             self._sys_pre = []
             return
@@ -715,7 +715,8 @@ class Sim:
         else:
             self.ctl_obs.append(self.render_obs(o["wire_from"], o["pub_from"]))
         # the same iteration as a step of the system model (the ids/spec lines of workers started in it go first)
-        self.sys_lines += self._sys_pre + [f"ctl {'1' if self._crash_requeued else '0'}"]
+        knode = o["kwargs"].get("node")
+        self.sys_lines += self._sys_pre + [f"ctl {knode.gateway.id[2:] if knode is not None else 0} {'1' if self._crash_requeued else '0'}"]
         self.sys_obs += ["ok"] * len(self._sys_pre) + [self.ctl_obs[-1]]
         self._sys_pre = []
 
